@@ -151,3 +151,19 @@ Theorem variadic_single_function :
   call false false 6 [TNum KI; TSlice TFunc] true [JNum (KI64, 1); JFun 1; JFun 1] =
     CV (GVStruct [GVI KI 1; GVSlice [GVFunc; GVFunc]]).
 Proof. vm_compute. split; reflexivity. Qed.
+
+(* export is compositional: an object is exported member by member, each member by
+   the same function, whatever else of the graph has been exported before -- so a
+   sub-object referenced twice appears twice *)
+Theorem export_shared_twice : forall f k1 k2 o g,
+  k1 < k2 -> export f o = Some g -> o <> JUndef ->
+  export (S f) (JObj [(k1, o); (k2, o)]) = Some (GVMap [(k1, g); (k2, g)]).
+Proof.
+  intros f k1 k2 o g L E N. cbn [export export_props option_map].
+  destruct o; try contradiction; rewrite E; cbn [kv_insert];
+    destruct (Z.ltb_spec k2 k1); try lia; destruct (Z.eqb_spec k2 k1); try lia; reflexivity.
+Qed.
+
+Theorem export_shared_in_array : forall f o g,
+  export f o = Some g -> export (S f) (JArr [Some o; Some o]) = Some (GVSlice [g; g]).
+Proof. intros f o g E. cbn [export export_elems option_map]. rewrite E. reflexivity. Qed.
